@@ -76,12 +76,12 @@ def h1(prog, rep):
                 # the only thing that may skip the notification is the test of the notifier itself
                 c = match[0]
                 conds = [(op, show(L), R) for cond, truth in f.edge_conds(c) for op, L, R, _, _ in cond_atoms(cond, truth)]
-                extra = [x for x in conds if not (x[0] == "!=" and "setreccookie" in x[1] and x[2] == ("c", 0))]
+                extra = [x for x in conds if not (x[0] in ("!=", ">", ">=", "<", "<=") and "setreccookie" in x[1] and x[2][0] == "c")]
                 own = [(op, show(L), R) for cond, truth in f.edge_conds(e) for op, L, R, _, _ in cond_atoms(cond, truth)]
                 extra = [x for x in extra if x not in own]
                 # loop conditions of a bulk notification loop are fine when the loop covers [0, N)
                 if extra and f.name == "ptrheap_create":
-                    extra = [x for x in extra if x[1] != show(s[1])]    # loop bounds on the index: covered by the create-loop rule
+                    extra = [x for x in extra if x[1] != show(s[1]) and show(x[2]) != show(s[1])]    # loop bounds on the index: covered by the create-loop rule
                 ok = not extra
             rep.check(ok, "H1-notify", "%s in %s" % (e.text[:50], f.name), e.where,
                       "a slot write must be followed by setreccookie(cookie, *slot, same index), skipped only when no notifier is registered",
